@@ -34,6 +34,9 @@ type Handler struct {
 	// ReadsStdin: the (successful) handler consumes its standard input (cat, read, kubectl exec -i ...): the hook's
 	// stdin is /dev/null as under the operator, this must not disturb the dispatch of the following contexts
 	ReadsStdin bool `json:"reads_stdin,omitempty"`
+	// ExitZero: the (successful) handler ends with "exit 0" instead of returning: handlers run in a shell of
+	// their own, the dispatch of the following contexts goes on
+	ExitZero bool `json:"exit_zero,omitempty"`
 }
 
 type Case struct {
@@ -129,7 +132,7 @@ func gen(t *rapid.T) Case {
 			st = rapid.SampledFrom([]int{1, 2, 42}).Draw(t, "status")
 			mode = rapid.SampledFrom([]string{"return", "return", "exit", "midway", "midway", "last"}).Draw(t, "mode")
 		}
-		c.Handlers = append(c.Handlers, Handler{Name: name, Status: st, Mode: mode, ReadsStdin: st == 0 && rapid.IntRange(0, 3).Draw(t, "stdin") == 0})
+		c.Handlers = append(c.Handlers, Handler{Name: name, Status: st, Mode: mode, ReadsStdin: st == 0 && rapid.IntRange(0, 3).Draw(t, "stdin") == 0, ExitZero: st == 0 && rapid.IntRange(0, 3).Draw(t, "exit0") == 0})
 	}
 	for _, x := range c.Contexts {
 		for _, cand := range candidates(x) {
@@ -212,10 +215,18 @@ func runCase(c Case) (ev.Info, error) {
 		logLine := fmt.Sprintf("echo \"%s|${BINDING_CONTEXT_CURRENT_INDEX}|$(context::jq -r .binding)\" >> %s", h.Name, logPath)
 		after := fmt.Sprintf("echo \"%s|AFTER-FAILED-COMMAND\" >> %s", h.Name, logPath)
 		switch {
-		case h.Status == 0 && h.ReadsStdin:
-			fmt.Fprintf(&sb, "function %s() { %s; cat >/dev/null; return 0; }\n", h.Name, logLine)
 		case h.Status == 0:
-			fmt.Fprintf(&sb, "function %s() { %s; return 0; }\n", h.Name, logLine)
+			body := logLine
+			if h.ReadsStdin {
+				body += "; cat >/dev/null"
+			}
+			if h.ExitZero {
+				// also changes shell state on its way out: nothing of it may reach the next context
+				body += "; cd /; set +e; exit 0"
+			} else {
+				body += "; return 0"
+			}
+			fmt.Fprintf(&sb, "function %s() { %s; }\n", h.Name, body)
 		case h.Mode == "exit":
 			fmt.Fprintf(&sb, "function %s() { %s; exit %d; }\n", h.Name, logLine, h.Status)
 		case h.Mode == "midway":
@@ -327,7 +338,7 @@ func tail(s string) string {
 	return s
 }
 
-const rule = "generated bash hooks that source the repository's shell_lib.sh (strict mode) and frameworks/shell, defining a generated subset of the documented handler names for the contexts in play (plus optionally __main__, always __config__), each handler logging name/index/current binding and returning a scripted status (a quarter of the successful handlers also read their standard input, which is /dev/null as under the operator); binding-context files with 0-5 contexts (1 in 8 files: 9-23 contexts) of every type (onStartup, Schedule, Synchronization, Event x3, Group, Validating, Mutating, Conversion with short/full versions), binding names from a pool incl. dots/dashes and, 1 in 12, names with spaces from the documentation; run by real bash+jq; oracle: Go reference dispatcher (first defined candidate most-to-least specific, else __main__; stop non-zero at first failing/undefined). Non-trivial: a context with >= 2 defined candidates, or a failing/undefined context that is not the last."
+const rule = "generated bash hooks that source the repository's shell_lib.sh (strict mode) and frameworks/shell, defining a generated subset of the documented handler names for the contexts in play (plus optionally __main__, always __config__), each handler logging name/index/current binding and returning a scripted status (a quarter of the successful handlers also read their standard input, which is /dev/null as under the operator; a quarter end with 'exit 0' after changing directory and shell options); binding-context files with 0-5 contexts (1 in 8 files: 9-23 contexts) of every type (onStartup, Schedule, Synchronization, Event x3, Group, Validating, Mutating, Conversion with short/full versions), binding names from a pool incl. dots/dashes and, 1 in 12, names with spaces from the documentation; run by real bash+jq; oracle: Go reference dispatcher (first defined candidate most-to-least specific, else __main__; stop non-zero at first failing/undefined). Non-trivial: a context with >= 2 defined candidates, or a failing/undefined context that is not the last."
 
 func TestDispatch(t *testing.T) {
 	ev.Main(t, ev.Spec[Case]{Property: "C19", Part: "dispatch", Rule: rule, Gen: gen, Run: runCase})
